@@ -226,7 +226,7 @@ func Leaves(msg protoreflect.Message, prefix string) []Leaf {
 						if fdc.MapValue().Message() != nil {
 							mm.Set(k, mm.NewValue())
 						} else {
-							mm.Set(k, changed(t, fdc.MapValue(), fdc.MapValue().Default()))
+							mm.Set(k, changed(t, fdc.MapValue(), zeroOf(fdc.MapValue())))
 						}
 						return
 					}
@@ -260,7 +260,7 @@ func Leaves(msg protoreflect.Message, prefix string) []Leaf {
 					}
 					l.Append(e)
 				} else {
-					l.Append(changed(t, fdc, fdc.Default()))
+					l.Append(changed(t, fdc, zeroOf(fdc)))
 				}
 			}})
 		case fd.Message() != nil:
@@ -290,6 +290,28 @@ func Leaves(msg protoreflect.Message, prefix string) []Leaf {
 		}
 	}
 	return out
+}
+
+func zeroOf(fd protoreflect.FieldDescriptor) protoreflect.Value {
+	switch fd.Kind() {
+	case protoreflect.StringKind:
+		return protoreflect.ValueOfString("")
+	case protoreflect.BoolKind:
+		return protoreflect.ValueOfBool(false)
+	case protoreflect.EnumKind:
+		return protoreflect.ValueOfEnum(0)
+	case protoreflect.Int32Kind, protoreflect.Sint32Kind, protoreflect.Sfixed32Kind:
+		return protoreflect.ValueOfInt32(0)
+	case protoreflect.Int64Kind, protoreflect.Sint64Kind, protoreflect.Sfixed64Kind:
+		return protoreflect.ValueOfInt64(0)
+	case protoreflect.Uint32Kind, protoreflect.Fixed32Kind:
+		return protoreflect.ValueOfUint32(0)
+	case protoreflect.Uint64Kind, protoreflect.Fixed64Kind:
+		return protoreflect.ValueOfUint64(0)
+	case protoreflect.BytesKind:
+		return protoreflect.ValueOfBytes(nil)
+	}
+	panic("unhandled kind " + fd.Kind().String())
 }
 
 // Apply mutates the leaf.
